@@ -148,6 +148,7 @@ class AmbigGen:
         """a statement-level ambiguity (T * x;  T (x);) in context ctx"""
         T, x = self.fresh("T"), self.fresh("x")
         filed, param, blockd, is_type = self.declare_T(how, T)
+        zdecl = xdecl = ""
         if form == "mul":
             s = "%s * %s;" % (T, x)
         elif form == "call":
@@ -163,6 +164,29 @@ class AmbigGen:
             s = "%s (((%s)));" % (T, x)
             if not is_type:
                 return None
+        elif form in self.GENERAL:
+            # the statements that begin like 'T * x' / 'T ( x' and go on: a declaration whose only specifier is T, or an expression
+            if (form == "init" and how == "file_typedef_struct") or (form == "fn" and x_predeclared):
+                return None                                # not valid C: scalar initializer for a structure; a function redeclaring the object x
+            z, U = self.fresh("z"), self.fresh("U")
+            s = self.GENERAL[form].replace("Z", z).replace("U", U) % (T, x)
+            if "Z" in self.GENERAL[form]:
+                zdecl = "int %s = 1; " % z
+            if "U" in self.GENERAL[form]:
+                filed += "typedef int %s;\n" % U
+            if not is_type:
+                tdecl = {"ptrparen": "int (*%s)(int)", "two": "int (*%s)(int)", "arr": "int *(*%s)(int)", "mulcomma": None}.get(form, 0)
+                if tdecl == 0:
+                    return None                            # the expression reading is not valid C (or needs U to be an object)
+                if tdecl:
+                    if how not in ("file_var", "block_var", "param"):
+                        return None
+                    init = " = gp" if form == "arr" else " = g"
+                    filed = filed.replace("int %s;" % T, tdecl % T + ";")
+                    blockd = blockd.replace("int %s = 1;" % T, tdecl % T + init + ";")
+                    param = param.replace("int %s" % T, tdecl % T)
+                if form == "ptrparen":
+                    xdecl = "int *%s = &y; " % x
         else:
             s = "%s ((%s));" % (T, x)
             if not is_type:
@@ -170,21 +194,25 @@ class AmbigGen:
         pre = ""
         if is_type:
             want = "DeclarationStatement"
+            zdecl = ""
             if x_predeclared:
                 filed += "int %s;\n" % x                  # an outer x: the statement is a shadowing redeclaration in an inner block
         else:
             want = "ExpressionStatement"
-            pre = "int %s = 1; " % x
+            pre = xdecl or "int %s = 1; " % x
             if x_predeclared:
                 return None
         name, tmpl = ctx
         if is_type and x_predeclared and name in ("body", "after"):
             pass
         stmt = tmpl % s
-        body = "int y = 0; %s%s%s" % (blockd, pre, stmt)
-        text = "%sint g(int a) { return a; }\nint f(%s)\n{\n %s\n return 0;\n}\n" % (filed, param or "void", body)
+        body = "int y = 0; %s%s%s%s" % (blockd, pre, zdecl, stmt)
+        text = "%sint g(int a) { return a; }\nint *gp(int a) { static int s_[4]; return s_ + a; }\nint f(%s)\n{\n %s\n return 0;\n}\n" % (filed, param or "void", body)
         a = text.index(s)
         return {"text": text, "span": (a, a + len(s)), "want": want, "form": form, "ctx": name, "how": how, "expr": s}
+
+    GENERAL = {"ptrparen": "%s (*%s);", "arr": "%s (%s)[2];", "init": "%s (%s) = 1;", "mulinit": "%s * %s = 0;", "two": "%s (%s), (Z);", "mulcomma": "%s * %s, Z;",
+               "fnptr": "%s (*%s)(U);", "fn": "%s (%s)(U);", "mularr": "%s * %s[2], Z;", "ptrfnptr": "%s (**%s)(U, U);", "initlist": "%s (%s)[2] = { 1, 2 };"}
 
     COLLISIONS = ["member", "tag", "member-use", "label", "member-late", "proto-param", "other-fn-param", "other-fn-local", "other-fn-typedef", "late-redecl"]
 
@@ -256,7 +284,7 @@ class AmbigGen:
                     c = self.suffix_case(form, ctx, how)
                     if c:
                         out.append(c)
-        for form in ("mul", "call", "callparen", "callparen3"):
+        for form in ("mul", "call", "callparen", "callparen3") + tuple(self.GENERAL):
             for ctx in STMT_CONTEXTS:
                 for how in self.HOWS:
                     for pre in (False, True):
